@@ -23,7 +23,29 @@ import (
 
 const c05Grid = 5
 
-func c05Instant(g int) time.Time { return world.T0.Add(time.Duration(g-2) * 500 * time.Millisecond) }
+// c05Instant maps a grid index to an instant: 0..4 are half a second apart around T0; the
+// far indices stand for the "unbounded" renderings deployments use (the integer comparison of
+// indices stays the oracle).
+func c05Instant(g int) time.Time {
+	switch g {
+	case c05FarPast:
+		return time.Date(1, 1, 1, 0, 0, 0, 0, time.UTC)
+	case c05Past1600:
+		return time.Date(1600, 2, 29, 12, 0, 0, 0, time.UTC)
+	case c05Far2300:
+		return time.Date(2300, 1, 1, 0, 0, 0, 0, time.UTC)
+	case c05FarFuture:
+		return time.Date(9999, 12, 31, 23, 59, 59, 0, time.UTC)
+	}
+	return world.T0.Add(time.Duration(g-2) * 500 * time.Millisecond)
+}
+
+const (
+	c05FarPast   = -20
+	c05Past1600  = -10
+	c05Far2300   = 10
+	c05FarFuture = 20
+)
 
 // c05Render writes instant t in rendering r (all denote the same instant).
 func c05Render(t time.Time, r int) string {
@@ -266,6 +288,38 @@ func c05Docs(renderBound map[int]int, stop func() bool) (docs []c05Case, complet
 		}
 		G[0] = 0
 		docs = append(docs, c05Case{N: n, G: G, R: make([]int, k), Mal: "no-conditions", MalAt: -1})
+		// far bounds (years 1, 1600, 2300, 9999): every bound at each far value of its side, the
+		// others near the clock, in the plain and in a numeric-offset rendering
+		for at := 0; at < k; at++ {
+			fars := []int{c05Far2300, c05FarFuture}
+			if at == 0 {
+				fars = []int{c05FarPast, c05Past1600, c05Far2300}
+			}
+			for _, f := range fars {
+				// an offset that keeps the local year inside 0001..9999
+				offset := 3 // -08:00
+				if f < 0 {
+					offset = 2 // +05:30
+				}
+				for _, rend := range []int{0, offset} {
+					G := make([]int, k)
+					for i := range G {
+						G[i] = 3
+					}
+					G[0] = 1
+					G[at] = f
+					R := make([]int, k)
+					R[at] = rend
+					docs = append(docs, c05Case{N: n, G: G, R: R})
+				}
+			}
+		}
+		Gall := make([]int, k)
+		for i := range Gall {
+			Gall[i] = c05FarFuture
+		}
+		Gall[0] = c05FarPast
+		docs = append(docs, c05Case{N: n, G: Gall, R: make([]int, k)})
 	}
 	// the plain grid once more with signature checking off (the time logic must not depend on it)
 	nd := len(docs)
